@@ -8,6 +8,15 @@ def repo_fix_commits():
     return []
 
 CHECKS = {
+ "C12": ("exploration", "runtime monitoring of the multi-stream reader against the concatenation law over generated stream lists and paddings",
+   "Files are assembled from a pool of valid streams with every padding length 0..16 in every gap and at the end, leading padding and trailing non-zero bytes; xz.Reader with SingleStream off and on is compared byte for byte with the homomorphism law and the error rules of the statement; liblzma (LZMA_CONCATENATED) gives a second opinion on files expected valid.",
+   "Pool and lists are samples; padding values 0..16 are enumerated per gap (full product for lists of up to 3 in the thorough tier).", "4 C12"),
+ "C13": ("exploration", "trace monitoring of (len(p), n, err) sequences under generated Read-size schedules and source fragmentations",
+   "Every Read result of the xz, LZMA and LZMA2 readers is recorded under buffer-length schedules (1, alternating 0/1, random, edge sizes, large) and source fragmentations (whole, 1 byte, short reads, data with EOF; with and without io.ByteReader); the monitor checks content equality, that EOF is never announced before all data was delivered, and that EOF is stable for three further reads.",
+   "Sampled schedules; sources that return (0,nil) for non-empty buffers are outside the property and not generated.", "4 C13"),
+ "C17": ("exploration", "runtime measurement of output sizes against the stated bounds",
+   "Runs of one byte value, X||X with random X (|X| up to and including DictCap) and random data are written with xz.Writer and lzma.Writer2 under both match finders and varied lc/lp/pb, BufSize, BlockSize, DictCap; output length is compared with the bounds of the statement including the additive allowance (blocks counted by the independent parser).",
+   "Sampled inputs/configurations; bounds taken verbatim from the property.", "4 C17"),
  "C09": ("fault_enumeration", "exhaustive fault enumeration at the I/O boundary (failing io.Writer / io.Reader) with result/panic monitors",
    "A dry run records the sink Write calls of each writer history (xz, .lzma plain and ByteWriter sinks, LZMA2 with flushes; ending in Close, Close); every call index x {once, forever} x {no bytes, partial write} is replayed and the monitor demands: no panic, some call returns an error, all-nil only with a complete valid stream in the sink. Every source offset x {once, forever} is replayed for the xz (incl. SingleStream), .lzma and LZMA2 readers over plain and ByteReader sources; the injected error must surface (errors.Is), never a clean end.",
    "Fault positions are exhaustive per case (byte-writer sinks thinned after call 3000); cases are a sample; internal/ref validates sinks when all calls returned nil.", "4 C09"),
